@@ -97,3 +97,9 @@ Theorem countered_deletion_keeps_cell : forall f d sd,
     In (CParentDeleted (KS p_source)) cd.
 Proof. exact RenderProofs.countered_deletion_keeps_cell. Qed.
 Print Assumptions countered_deletion_keeps_cell.
+
+(* the counter diff never contains a patch with nothing below it (generic.py: `if subdiff:`) *)
+Theorem counter_diff_no_empty_branch : forall counters f d p,
+  forallb centry_nonempty (create_parent_deletion_counter_diff counters f d p) = true.
+Proof. exact RenderProofs.cpd_nonempty. Qed.
+Print Assumptions counter_diff_no_empty_branch.
